@@ -344,6 +344,7 @@ func (g *gen) oracle(args []string, impl string, cu *golang.CodeUtils) (res *vl.
 		val  bool
 	}
 	last := map[string]bool{}
+	mustReject := ""
 	tpl := "default"
 	style := "thriftgo"
 	ignoreInit := false
@@ -359,14 +360,20 @@ func (g *gen) oracle(args []string, impl string, cu *golang.CodeUtils) (res *vl.
 		}
 		switch name {
 		case "template":
-			if val != "slim" && val != "raw_struct" {
-				return nil
+			if val != "slim" && val != "raw_struct" && val != "default" {
+				if mustReject == "" {
+					mustReject = "unknown template " + val
+				}
+				continue
 			}
 			tpl = val
 			continue
 		case "naming_style":
 			if val != "golint" && val != "apache" && val != "thriftgo" {
-				return nil
+				if mustReject == "" {
+					mustReject = "unknown naming style " + val
+				}
+				continue
 			}
 			style = val
 			continue
@@ -374,7 +381,9 @@ func (g *gen) oracle(args []string, impl string, cu *golang.CodeUtils) (res *vl.
 			continue
 		case "use_package":
 			if !strings.Contains(val, "=") {
-				return nil
+				if mustReject == "" {
+					mustReject = "use_package without '='"
+				}
 			}
 			continue
 		}
@@ -386,7 +395,10 @@ func (g *gen) oracle(args []string, impl string, cu *golang.CodeUtils) (res *vl.
 		case "false":
 			b = false
 		default:
-			return res
+			if mustReject == "" {
+				mustReject = "non-boolean value for " + name
+			}
+			continue
 		}
 		if name == "ignore_initialisms" {
 			ignoreInit = b
@@ -406,6 +418,12 @@ func (g *gen) oracle(args []string, impl string, cu *golang.CodeUtils) (res *vl.
 	invalid := (get("apache_warning") && get("apache_adaptor")) || (get("with_field_mask") && !get("with_reflection")) ||
 		(get("snake_style_json_tag") && get("lower_camel_style_json_tag")) || (!get("gen_json_tag") && get("always_gen_json_tag"))
 	key := "args:" + strings.Join(args, ",")
+	if mustReject != "" {
+		if impl != "err" {
+			fail(vl.OracleFail{Key: key, What: "option list accepted although it must be rejected: " + mustReject, Input: args, Expected: "error", Observed: impl})
+		}
+		return res
+	}
 	if invalid {
 		if impl != "err" {
 			fail(vl.OracleFail{Key: key, What: "documented invalid combination accepted", Input: args, Expected: "error", Observed: impl})
@@ -462,7 +480,8 @@ func (g *gen) spellings(e tableEntry) []string {
 	case "template":
 		return []string{n + "=slim", n + "=raw_struct", n + "=default", n + "=nosuch", n}
 	}
-	return []string{n, n + "=true", n + "=false", n + "=garbage", n + "="}
+	return []string{n, n + "=true", n + "=false", n + "=garbage", n + "=", n + "=1", n + "=0", n + "=t", n + "=f", n + "=T", n + "=F",
+		n + "=TRUE", n + "=FALSE", n + "=True", n + "=False", n + "=yes", n + "=on", n + "= true", n + "=true "}
 }
 
 func (g *gen) randomOpt() string {
